@@ -90,7 +90,7 @@ func AllCases(tier string) []scen.Case {
 func productCases(tier string) []scen.Case {
 	verbs := []string{"GET", "POST", "PUT", "DELETE", "PATCH"}
 	prefixesA := []string{"/§", "§", "/§/", "//§", "/§/a", "/§//a", "/§/{t}"}
-	routesA := []string{"/", "/x", "x", "/x/", "//x", "/x//y", "/{id}", "/x/{id}", "/{id}/y", "/x/{my-id}"}
+	routesA := []string{"/", "/x", "x", "/x/", "//x", "/x//y", "/{id}", "/x/{id}", "/{id}/y", "/x/{my-id}", "/x/v{id}/y"}
 	prefixesB := []string{"<none>", "/", ""}
 	routesB := []string{"/§", "§", "/§/", "//§", "/§/x", "/§//x", "/§/{id}", "/{id}/§"}
 	tags := []string{"T§", "T § with space"}
@@ -257,6 +257,10 @@ func mutators() []mutator {
 			zeta := method("Zeta"+id, "GET", "/zone/me", pfx)
 			alpha := method("Alpha"+id, "GET", "/zone/{id}", pfx)
 			c.Methods = append([]scen.Method{zeta, alpha}, c.Methods...)
+		}},
+		{"A.method-in-a-file-with-a-generated-code-header", func(u *scen.Unit, id string) {
+			ms := u.Controllers[0].Methods
+			ms[len(ms)-1].File = "scaffold_generated.go"
 		}},
 		{"C.declared-in-a-grouped-type-block", func(u *scen.Unit, id string) { u.Controllers[2].Grouped = true }},
 		{"B.no-leading-slash-route", func(u *scen.Unit, id string) { u.Controllers[1].Methods[0].Route = scen.S("one") }},
@@ -546,7 +550,7 @@ func Main(tier, replay string) {
 	run.Set("pack_bisections", rn.Bisects.Load())
 	run.Sample(cases[0])
 	run.Sample(cases[len(cases)-1])
-	run.Bound = fmt.Sprintf("full product of 1-controller scenarios (7 namespaced prefixes x 10 routes, 3 prefix-less x 8 routes, 5 verbs, hidden/deprecated, 2 tags: %d) + every subset of <= %d of %d layout deviations on a 3-controller/2-package base; both OpenAPI versions; each scenario packed and alone", len(productCases(tier)), map[string]int{"quick": 2, "thorough": 3}[tier], len(mutators()))
+	run.Bound = fmt.Sprintf("full product of 1-controller scenarios (7 namespaced prefixes x 11 routes, 3 prefix-less x 8 routes, 5 verbs, hidden/deprecated, 2 tags: %d) + every subset of <= %d of %d layout deviations on a 3-controller/2-package base; both OpenAPI versions; each scenario packed and alone", len(productCases(tier)), map[string]int{"quick": 2, "thorough": 3}[tier], len(mutators()))
 	run.Rule = "state = one scenario (controllers, files, packages, routes, verbs, flags); transition = one run of the real pipeline + both spec generators over a generated project; validated = per-scenario, per-version comparisons of documented operations with the reference route model, plus packed-vs-alone projections"
 	run.Assumptions = []string{"path normalisation = collapsing runs of '/'", "when two methods map to one verb/path only membership of (operationId, tag, deprecated) is demanded"}
 	cleanupAndFinish(run, scratch)
